@@ -603,7 +603,7 @@ func init() {
 	})
 	register(&PropDef{
 		ID: "C20", Level: "fault_enumeration",
-		Rule:        tree + " x 1..3 hosts x deviations (cluster description kinds, payload kinds, output faults) x ways of supplying the key pair {both flags, both environment, public flag + private environment, public environment + private flag}, at the library level and through the real main() in a child process; plus ~100 runs that end in a usage text or an argument error (help, unknown flag, malformed / missing values, extra arguments, other sub-commands) for every way of supplying the key pair. Oracle: the private-key canary (characters that change under URL-, base64- and JSON-encoding) in the forms verbatim / URL-encoded / path-escaped / base64 / base64url / base64(public:private) / JSON-escaped occurs in no request line, header or body, not in stdout, stderr, output files, files left in TMPDIR or the sandbox; no Authorization header is sent before a digest challenge was received, every Authorization header is a digest response, every request goes to https://cloud.mongodb.com. distinct = distinct scripts",
+		Rule:        tree + " x 1..3 hosts x deviations (cluster description kinds, payload kinds, output faults) x ways of supplying the key pair {both flags, both environment, public flag + private environment, public environment + private flag, both flags spelled --flag=value, public environment + private --flag=value}, at the library level and through the real main() in a child process; plus ~100 runs that end in a usage text or an argument error (help, unknown flag, malformed / missing values, extra arguments, other sub-commands) for every way of supplying the key pair. Oracle: the private-key canary (characters that change under URL-, base64- and JSON-encoding) in the forms verbatim / URL-encoded / path-escaped / base64 / base64url / base64(public:private) / JSON-escaped occurs in no request line, header or body, not in stdout, stderr, output files, files left in TMPDIR or the sandbox; no Authorization header is sent before a digest challenge was received, every Authorization header is a digest response, every request goes to https://cloud.mongodb.com. distinct = distinct scripts",
 		Assumptions: []string{"HTTP redirects and proxies are not among the scripted behaviours", "the digest response itself (an MD5 over the key) is the sanctioned use"},
 		Run:         c20Run,
 	})
